@@ -156,4 +156,44 @@ def _rebound(fn, name) -> bool:
     return False
 
 
-RULES = [rule_alias]
+def rule_fresh(ctx) -> RuleResult:
+    res = RuleResult(
+        "C12.FRESH",
+        "C12",
+        "every NumericData.format_type implementation returns a fresh array (astype without copy=False, np.array ...): a copy is "
+        "built by handing the source's values to the copy's values setter, which stores format_type's result — a pass-through "
+        "would make source and copy share one buffer",
+        floor=3,
+    )
+    from .c04 import is_fresh
+
+    p = ctx.p
+    seen = set()
+    for K in p.subclasses(p.cls("NumericData")):
+        fn = K.methods.get("format_type")
+        if fn is None or fn in seen:
+            continue
+        seen.add(fn)
+        for r in [x for x in ast.walk(fn.node) if isinstance(x, ast.Return) and x.value is not None]:
+            ok = is_fresh(r.value)
+            res.inst(f"{K.name}.format_type returns {unparse(r.value)[:50]} (fresh: {ok})", nontrivial=True, ok=ok)
+            if not ok:
+                res.find(K.name, "format_type", f"returns {unparse(r.value)[:50]}, which may be the caller's array itself", f"{fn.module.relpath}:{r.lineno}",
+                         "the values setter stores the very array it was handed: a copy made from the source's values shares its buffer, and an "
+                         "in-place edit of the copy's values silently changes the source")
+    st = p.cls("NumericData").props["values"].setter
+    ok = any(isinstance(a, ast.Assign) and unparse(a.targets[0]) == "self._values" and unparse(a.value).startswith("self.format_values(") for a in ast.walk(st.node))
+    res.inst("NumericData.values setter stores format_values(...) (which ends in format_type)", ok=ok)
+    if not ok:
+        res.find("NumericData", "values", "setter does not go through format_values", st.where, "raw arrays are stored by reference")
+    fv = p.cls("NumericData").methods["format_values"]
+    last = [a for a in ast.walk(fv.node) if isinstance(a, ast.Assign) and "format_type" in unparse(a.value)]
+    rets = [r for r in ast.walk(fv.node) if isinstance(r, ast.Return) and r.value is not None and unparse(r.value) != fv.params[1] or False]
+    ok = bool(last)
+    res.inst("format_values ends with values = self.format_type(values)", ok=ok)
+    if not ok:
+        res.find("NumericData", "format_values", "format_type no longer applied", fv.where, "stored values are neither coerced nor copied")
+    return res
+
+
+RULES = [rule_alias, rule_fresh]
